@@ -11,13 +11,13 @@ SPEC = {
                   "'inside a network range' is proved to be containment of address sets); AddCA keeps every key equal to the fingerprint of its CA; "
                   "a cached re-check against the same pool (any blocklist, any time) equals a full check with no assumption, and against any "
                   "pool built by AddCA it equals the documented rule in the new state under SHA-256 collision resistance (a premise). "
-                  "The model is tied to CAPool.VerifyCertificate / VerifyCachedCertificate / AddCA by correspondence on real pools of 28 CAs "
-                  "(v1/v2, Curve25519/P256, open/constrained/expired/sub-second) and real signed leaves crossing every constraint, evaluated at "
+                  "The model is tied to CAPool.VerifyCertificate / VerifyCachedCertificate / AddCA by correspondence on real pools of 52 CAs "
+                  "(v1/v2, Curve25519/P256, open/constrained/zero-length network and unsafe-network constraints of one or both families/expired/sub-second) and real signed leaves crossing every constraint, evaluated at "
                   "the validity boundaries, with fingerprint / twin-fingerprint blocklisting and reloaded pools between full and cached check; "
                   "the documented rule and 'cached = full' are evaluated on every real verdict. Pools with a verification history (a genuine leaf verified full and cached, then certificates that keep its signature bytes and issuer but change one identity field, and other genuine leaves, all on the SAME pool object) are checked for history independence: every verdict equals the documented rule and the verdict of a pool built afresh (C01_history_independent on the model side).",
     "level_note": "Trusted: Coq kernel; the hand-written model (mirrors the order of checks of CAPool.verify, checkCAConstraints, Expired, "
                   "netip.Prefix.Contains); the harness that translates real certificates to model records through the public Certificate interface; "
-                  "SHA-256 and the signature primitives are oracles (real fingerprints and real CheckSignature verdicts are supplied as data). "
+                  "SHA-256 and the signature primitives are oracles (real fingerprints and real CheckSignature verdicts are supplied as data); the twin fingerprint of a P-256 certificate is computed by the harness itself (ASN.1 (r, s) parsed with math/big, s -> n - s, re-encoded, Fingerprint() of a copy carrying that signature), not taken from CalculateAlternateFingerprint, and both S forms x blocklisting the presented / the other form are swept on the full and the cached check. "
                   "The correspondence is differential testing, bounded by its generators.",
     "gens": [],
     "build_comp": "certverify",
